@@ -8,9 +8,11 @@ from contracts import c02_remove_metabolites as RM
 from contracts import c02_rxn_add_metabolites as RAM
 from contracts import c02_add_reactions as AR
 from contracts import c02_remove_reactions_ctx as RRC
+from contracts import c02_add_reactions_ctx as ARC
 from contracts import c12_rxn_arith as ARITH
 from contracts import c02_add_metabolites_ctx as AMC
 from contracts import c02_remove_metabolites_ctx as RMC
+from contracts import c02_remove_genes as RG
 from props._generic import run_property, replay_with_driver
 
 LEVEL = "other"
@@ -33,9 +35,11 @@ KEYS_RR = ["Model.remove_reactions"]
 def run(rep):
     run_property(rep, KEYS, more=[(RENAME_KEYS, c02_rename.HOOKS), (BOUNDARY_KEYS, c02_boundary.HOOKS), (KEYS_UG, U.HOOKS), (KEYS_AM, AM.HOOKS),
                                    (KEYS_RR, RR.HOOKS), (GR.KEYS, GR.HOOKS), (RM.KEYS, RM.HOOKS), (RAM.KEYS, RAM.HOOKS),
-                                   (RAM.KEYS_SUB, RAM.HOOKS_SUB), (AR.KEYS, AR.HOOKS), (RRC.KEYS, RRC.HOOKS),
-                                   (AMC.KEYS, AMC.HOOKS), (RMC.KEYS, RMC.HOOKS)] + list(ARITH.GROUPS),
-                 lemmas=lambda: U.lemmas() + RAM.lemmas() + RRC.lemmas() + ARITH.lemmas() + AMC.lemmas() + RMC.lemmas(), explanation=(
+                                   (RAM.KEYS_SUB, RAM.HOOKS_SUB), (AR.KEYS, AR.HOOKS), (RRC.KEYS, RRC.HOOKS), (ARC.KEYS, ARC.HOOKS),
+                                   (AMC.KEYS, AMC.HOOKS), (RMC.KEYS, RMC.HOOKS), (RG.KEYS, RG.HOOKS)] + list(ARITH.GROUPS),
+                 lemmas=lambda: (U.lemmas() + RAM.lemmas() + RRC.lemmas() + ARC.lemmas() + ARITH.lemmas() + AMC.lemmas()
+                                 + RMC.lemmas()), explanation=(
+        "Model.add_reactions with a context open (key Model.add_reactions[context]; lists, models and stoichiometries of any size, any depth of the context stack): the final state exactly as the no-context contract proves it (same formulas) PLUS the undo registrations as a ghost trace, all in the INNERMOST context, nothing twice: per added reaction r a block setattr(r, _model, None), then for every key x of r._metabolites at exit x._reaction.remove(r) - registered only where the x._reaction.add(r) it inverts changed the set - or the recorded call add_metabolites(x) (x joined; the callee's own registrations, ASSUMED: in a context it changes the state as its no-context contract says), then the recorded call r.update_genes_from_gpr() (its proved in-context case), blocks in the order of pruned, and last reactions.__isub__(pruned) registered after `reactions += pruned`; glue lemmas undo-restores (membership of model.reactions, _model of reactions, _reaction sets of the entry members of model.metabolites); stated precondition own-keys-do-not-list (a key of a to-be-added reaction that is a member of model.metabolites does not list it at entry: otherwise the unguarded else-branch registers a remove for a no-op add - not reachable through the public API at the repaired commit); the re-pointing of the stoichiometry keys has no inverse and needs none (the reaction is outside the model at entry and exit). "
         "Deductive part: the clauses `identifiers are unique` and `every listed object is the one found by looking up its "
         "identifier` hold because every model edit changes model.reactions/metabolites/genes/groups only through the DictList "
         "operations listed here, each proved (C15 contracts, unbounded) to preserve the representation invariant and to produce "
@@ -145,20 +149,38 @@ def run(rep):
         "_populate_solver([r]), setattr(r, _model, model), reactions.add(r), one x._reaction.add(r) per metabolite / gene that listed "
         "it, one g.add_members([r]) per group that contained it, nothing else and nothing twice; glue lemmas undo-restores (model "
         "pointers, list content, back references, group members). Reaction arithmetic: __imul__ (in a model without / with context, "
-        "detached; every coefficient scaled, bounds swapped and negated iff coefficient < 0, one _populate_solver call, the two undo "
-        "registrations, lemma undo-restores; precondition inside a context: coefficient != 0), __iadd__ / __isub__ (exactly one "
+        "detached; every coefficient scaled, bounds swapped and negated iff coefficient < 0, one _populate_solver call, the three undo "
+        "registrations, lemma undo-restores exact also for the coefficient 0), __iadd__ / __isub__ (exactly one "
         "add_metabolites / subtract_metabolites call with the operand's dictionary and combine=True, the rule decision table, the "
         "operand untouched; in a model without context the EFFECT through the proved add_metabolites contract), __mul__ / __add__ / "
         "__sub__ (copies by the proved Reaction.copy contract, the in-place operator applied to the copy only, operands and every "
         "existing object unchanged). "
         "Model.add_metabolites and Model.remove_metabolites WITH a context open (lists and models of any size, any depth of the context stack; remove: a list or one metabolite, keeping the reactions or destructive): the final state exactly as their no-context contracts state it, plus the undo registrations as a ghost trace, all in the innermost context, nothing else and nothing twice - add: one x._reaction.update(S) per joining metabolite that lost back-references, S exactly the set taken out, then metabolites.__isub__(the joining metabolites), then setattr(x, _model, None) per joining metabolite, and nothing at all on the two early exits; remove: one g.add_members([x]) per (handled metabolite, group of the model that contained it), then metabolites.__iadd__(the handled metabolites), then setattr(x, _model, model) per handled metabolite; the constraint side is the recorded add_cons_vars / remove_cons_vars call whose own registration C03 proves, subtract_metabolites is called with the default reversibly, remove_from_model = remove_reactions in context; glue lemmas undo-restores (membership in model.metabolites as a set, back references resp. group members, model pointers - the last under the stated hypothesis that a joining metabolite had no model resp. a removed one pointed at the model). Stated preconditions: those of the no-context contracts, pairwise different items as a ghost inverse map, destructive list case: a reaction is not a listed metabolite; assumed at the call site: get_associated_groups returns no duplicates. "
+        "cobra.manipulation.remove_genes (no context open; gene_list a list of Gene objects or of identifier strings each "
+        "naming a gene of the model; lists and models of any size; remove_reactions a symbolic Boolean; every reaction of the "
+        "model owning its GPR object with a well-formed tree) is proved up to its two final calls, which are recorded: in the "
+        "state in which model.remove_reactions(l) is called the looked-up genes GS have left model.genes (well formed again, "
+        "the others in order, exactly the members in GS gone), have no model pointer (no other pointer changed) and are in no "
+        "group of the model (nothing else left a group); every reaction with a non-empty rule that is not a target has a rule "
+        "that is - for an arbitrary set K of absent genes - equivalent to its old rule with K and the removed identifiers "
+        "absent, or no body only if the old rule is False with them absent (the PROVED contracts of _GeneRemover.visit_Name / "
+        "visit_BoolOp applied to the body at the call site), every other rule is untouched; l lists exactly the reactions with "
+        "a non-empty rule that is False with the removed identifiers absent when remove_reactions is set (each once, members of "
+        "the model, nothing when it is not set); update_genes_from_gpr() is then called on exactly the reactions that kept a "
+        "rule. The effects of these two callees are their own contracts (Model.remove_reactions, "
+        "Reaction.update_genes_from_gpr); their composition with this contract - the final cross-reference clause - is NOT "
+        "carried out. Assumed there: NodeTransformer's visit of the root GPR object (body := visit(body) by the remover's "
+        "contract, attribute deleted for None; rule trees of different GPR objects are disjoint and do not read the body "
+        "field), the remover's constructor, gene_reaction_rule is empty exactly for a rule without body, "
+        "Group.remove_members(<one object>) wraps it into a list. "
         "The documented effect of each other public "
         "editing operation on stoichiometry, gene sets, back-references and groups (add_reactions inside a context, "
-        "remove_genes/rename_genes, merge), the parsing of the rule text and what the "
+        "remove_genes inside a context and its final cross-reference clause, rename_genes, merge), the parsing of the rule text and what the "
         "registered undo functions do when they run are NOT "
         "proved - those functions mix sympy/optlang calls, string parsing and nested loops outside the supported subset: bounded "
         "driver (histories compared step by step with an executable reference description + Inv_XRef after every step)."),
-        trusted=["add_metabolites / remove_metabolites in a context: context(f) = HistoryManager.__call__ by its proved contract, recorded "
+        trusted=["Model.add_reactions[context]: at the call site self.add_metabolites(metabolite) with a context open the callee is ASSUMED to change model.metabolites / _model / _reaction as its no-context contract (proved without a context only) says - its precondition without `no context open` is obliged - and to register its own undos (recorded call, not looked at); the callees' own undos are ASSUMED (glue lemmas only) to touch _model / _reaction of joined metabolites and genes only; stated precondition own-keys-do-not-list",
+                 "add_metabolites / remove_metabolites in a context: context(f) = HistoryManager.__call__ by its proved contract, recorded "
                  "in a ghost trace; the list returned by Model.get_associated_groups has no duplicates (assumed consequence of its proved "
                  "post-condition); the trace clauses are stated under a free Boolean gate (proved for both values)",
                  "CPython list/dict semantics as axiomatised", "copy.deepcopy returns a fresh detached object (assumed)",
@@ -179,6 +201,10 @@ def run(rep):
                  "add_groups: Model.add_metabolites([m]) / add_reactions([m]) recorded abstract calls that may change only "
                  "model.metabolites / model.reactions (well formed again) and model pointers of non-Group objects; isinstance of a "
                  "member an uninterpreted class tag",
+                 "remove_genes: ast.NodeTransformer visit of the root GPR object (body := visit(body), attribute deleted for None; "
+                 "rule trees of different GPR objects disjoint, not reading the body field), _GeneRemover(ids) constructor, "
+                 "gene_reaction_rule empty iff no body, Group.remove_members(one object) = remove_members([object]); "
+                 "Model.remove_reactions / update_genes_from_gpr recorded there, write sets havocked",
                  "Reaction.add_metabolites: model.constraints[name] / constraint.set_linear_coefficients as a ghost matrix (assumed "
                  "optlang contracts); Model.add_metabolites applied at the call site by its proved contract plus: does not raise for "
                  "pairwise different new identifiers (obliged), add_cons_vars makes the constraints findable by name"])
